@@ -19,10 +19,13 @@ use std::time::{Duration, Instant};
 
 const MARKER: &[u8] = b"SECRET-CONTENT-MARKER-7f3a";
 
+/// header field names are case-insensitive: the forwarded-for header is spelt in several ways
+const XFF_NAMES: [&str; 4] = ["X-Forwarded-For", "x-forwarded-for", "X-FORWARDED-FOR", "X-forwarded-For"];
+
 fn make_request(uri: &str, peer: SocketAddr, xff: &Option<String>, extra: bool) -> Request {
     let mut wire = format!("GET {} HTTP/1.1\r\nHost: localhost\r\n", uri);
     if let Some(x) = xff {
-        wire.push_str(&format!("X-Forwarded-For: {}\r\n", x));
+        wire.push_str(&format!("{}: {}\r\n", XFF_NAMES[(x.len() + uri.len()) % 4], x));
     }
     if extra {
         wire.push_str("Forwarded: for=10.9.8.7\r\nVia: 1.1 example\r\nX-Real-IP: 10.9.8.7\r\n");
@@ -411,7 +414,7 @@ fn end_to_end(ctx: &Ctx) {
                 };
                 let mut req = format!("GET {} HTTP/1.1\r\nHost: e2e\r\nConnection: close\r\n", uri);
                 if !xff_addrs.is_empty() {
-                    req.push_str(&format!("X-Forwarded-For: {}\r\n", xff_addrs.iter().map(|a| a.to_string()).collect::<Vec<_>>().join(if q % 2 == 0 { ", " } else { "," })));
+                    req.push_str(&format!("{}: {}\r\n", XFF_NAMES[((q / 2) % 4) as usize], xff_addrs.iter().map(|a| a.to_string()).collect::<Vec<_>>().join(if q % 2 == 0 { ", " } else { "," })));
                 }
                 req.push_str("\r\n");
                 let peer_listed = listed(&src);
@@ -486,7 +489,7 @@ fn end_to_end(ctx: &Ctx) {
 }
 
 pub fn run(ctx: &Ctx) {
-    ctx.rule("level 1: the server's file / directory / redirect / proxy handlers called in-process with an AppState built from a generated blacklist (0..3 IPv4/IPv6 entries), cache on/off, and requests parsed by the real parser from generated peers and X-Forwarded-For lists (with and without spaces), optionally after warming the cache from an unlisted address; level 2: the real `humphrey` binary started from a generated configuration (block / forbidden, blacklist file with IPv4 and IPv6 entries, all four route types, cache on/off, listening on 127.0.0.1 or [::1]) and clients bound to chosen source addresses in 127.0.0.0/8 and ::1. Oracle: listed peer in block mode gets zero response bytes; listed peer or any listed forwarded address gets 403 and never the marker content or redirect target; all-unlisted requests are served normally. Non-trivial: request with X-Forwarded-For, a cache hit, or IPv6; distinct by case");
+    ctx.rule("level 1: the server's file / directory / redirect / proxy handlers called in-process with an AppState built from a generated blacklist (0..3 IPv4/IPv6 entries), cache on/off, and requests parsed by the real parser from generated peers and X-Forwarded-For lists (with and without spaces, the header name in four spellings), optionally after warming the cache from an unlisted address; level 2: the real `humphrey` binary started from a generated configuration (block / forbidden, blacklist file with IPv4 and IPv6 entries, all four route types, cache on/off, listening on 127.0.0.1 or [::1]) and clients bound to chosen source addresses in 127.0.0.0/8 and ::1. Oracle: listed peer in block mode gets zero response bytes; listed peer or any listed forwarded address gets 403 and never the marker content or redirect target; all-unlisted requests are served normally. Non-trivial: request with X-Forwarded-For, a cache hit, or IPv6; distinct by case");
     ctx.assume("a request whose own (peer) address or any forwarded address is listed must get 403; requests always target a configured route; the upstream of proxy routes is a scripted loopback server returning the marker");
     in_process(ctx);
     end_to_end(ctx);
